@@ -1,5 +1,6 @@
 import Vflow.Model.Options
 import Vflow.Proofs.OptionsCfg
+import Vflow.Proofs.OptionsCli
 import Vflow.Gen.OptionsTbl
 /-!
 # C17 — configuration sources are applied in the documented order
@@ -29,12 +30,14 @@ theorem register_current (tbl : List Row) (cur : Settings) (h : RegistersCurrent
   | some r =>
     rcases h r (rowOf_mem hr) with h' | h' <;> simp [h']
 
-/-- when the canonical stage list runs to completion, its result is the three sources applied in order -/
+/-- when the canonical stage list runs to completion, its result is the three sources applied in order, and
+`flag.Parse` left no positional argument -/
 theorem run_canonical (tbl : List Row) (inp : Inputs) (s : Settings) (hc : RegistersCurrent tbl)
     (h : run tbl canonicalStages inp = .ok s) :
     envFatal tbl inp.env = false ∧
     ∃ file l, cfgSource tbl inp = some file ∧
       parseArgs (configReg :: regsOf tbl) (inp.args.length + 1) inp.args = .ok l ∧
+      strayArgs (configReg :: regsOf tbl) (inp.args.length + 1) inp.args = [] ∧
       s = apply (apply (apply (defaults tbl) (envSource tbl inp.env)) file) (lastOf l) := by
   simp only [run, canonicalStages, runFrom, step, Outcome.bind, List.nil_append] at h
   cases hf : envFatal tbl inp.env with
@@ -50,9 +53,13 @@ theorem run_canonical (tbl : List Row) (inp : Inputs) (s : Settings) (hc : Regis
       cases hp : parseArgs (configReg :: regsOf tbl) (inp.args.length + 1) inp.args with
       | ok l =>
         simp only [hp] at h
-        refine ⟨rfl, file, l, rfl, rfl, ?_⟩
-        injection h with h
-        exact h.symm
+        cases hst : strayArgs (configReg :: regsOf tbl) (inp.args.length + 1) inp.args with
+        | nil =>
+          simp only [hst, List.isEmpty_nil, ↓reduceIte] at h
+          refine ⟨rfl, file, l, rfl, rfl, rfl, ?_⟩
+          injection h with h
+          exact h.symm
+        | cons a r => simp [hst] at h
       | exit c => simp [hp] at h
       | panic => simp [hp] at h
 
@@ -73,29 +80,31 @@ theorem precedence (tbl : List Row) (inp : Inputs) (s : Settings) (hc : Register
     (h : run tbl canonicalStages inp = .ok s) :
     ∃ file, cfgSource tbl inp = some file ∧
       ∀ f, s f = resolve (defaults tbl) (envSource tbl inp.env) file (flagSource tbl inp.args) f := by
-  obtain ⟨_, file, l, hcfg, hp, hs⟩ := run_canonical tbl inp s hc h
+  obtain ⟨_, file, l, hcfg, hp, _, hs⟩ := run_canonical tbl inp s hc h
   refine ⟨file, hcfg, fun f => ?_⟩
   rw [hs, apply_three]
   simp [flagSource, hp]
 
 /-- **C17 (when loading completes)**: the canonical run ends in settings exactly when no environment
 value is malformed, the first word spelling the config flag is not `-config` / `--config` as the last
-word, and the command line parses -/
+word, the command line parses, and every word of it is a flag or the value of one (F31: `flag.Parse` leaves
+no positional argument) -/
 theorem run_ok_iff (tbl : List Row) (inp : Inputs) (hc : RegistersCurrent tbl) :
     (∃ s, run tbl canonicalStages inp = .ok s) ↔
       (envFatal tbl inp.env = false ∧ (cfgSource tbl inp).isSome ∧
-       ∃ l, parseArgs (configReg :: regsOf tbl) (inp.args.length + 1) inp.args = .ok l) := by
+       (∃ l, parseArgs (configReg :: regsOf tbl) (inp.args.length + 1) inp.args = .ok l) ∧
+       strayArgs (configReg :: regsOf tbl) (inp.args.length + 1) inp.args = []) := by
   constructor
   · rintro ⟨s, h⟩
-    obtain ⟨h1, file, l, h2, h3, _⟩ := run_canonical tbl inp s hc h
-    exact ⟨h1, by simp [h2], l, h3⟩
-  · rintro ⟨h1, h2, l, h3⟩
+    obtain ⟨h1, file, l, h2, h3, h4, _⟩ := run_canonical tbl inp s hc h
+    exact ⟨h1, by simp [h2], ⟨l, h3⟩, h4⟩
+  · rintro ⟨h1, h2, ⟨l, h3⟩, h4⟩
     obtain ⟨file, h2⟩ := Option.isSome_iff_exists.mp h2
     refine ⟨apply (apply (apply (defaults tbl) (envSource tbl inp.env)) file) (lastOf l), ?_⟩
     simp only [run, canonicalStages, runFrom, step, Outcome.bind, List.nil_append, List.cons_append,
       h1, h2, Bool.false_eq_true, ↓reduceIte]
     rw [register_current tbl _ hc]
-    simp [h3]
+    simp [h3, h4]
 
 /-! ## what each source provides (so that `precedence` is not about empty sources) -/
 
@@ -230,7 +239,7 @@ theorem precedence_config_flag (tbl : List Row) (inp : Inputs) (s : Settings) (h
     (h1 : (flagConfigs tbl inp.args).length ≤ 1) :
     ∀ f, s f = resolve (defaults tbl) (envSource tbl inp.env)
       (fileAt tbl inp (flagConfigPath tbl inp.args)) (flagSource tbl inp.args) f := by
-  obtain ⟨_, file, l, hcfg, hp, _⟩ := run_canonical tbl inp s hc h
+  obtain ⟨_, file, l, hcfg, hp, _, _⟩ := run_canonical tbl inp s hc h
   obtain ⟨file', hcfg', hs⟩ := precedence tbl inp s hc h
   have hfc : flagConfigs tbl inp.args = cfgAssigns l := by simp [flagConfigs, hp]
   rw [hfc] at hw h1
@@ -344,9 +353,139 @@ theorem env_after_parse_counterexample :
       { inpFileFlag with env := fun n => if n = "VFLOW_P" then "1" else "" }) "P" = some (.int 1) := by
   decide
 
+/-! ## given on the command line: what it says, not what the parser reads (F31)
+
+`precedence` takes the command line as the source `flagSource`, which is *defined by* the model of package
+`flag`'s parser — and that parser stops at the first word that is neither a flag nor the value of one.
+docs/config.md writes every key as `-key value`; for a boolean flag package `flag` never takes the next
+word, so `-ipfix-enabled false -sflow-port 7000` set `ipfix-enabled` to true and dropped `-sflow-port 7000`
+without a word (F31, `f31_counterexample`).  The theorems below take the command line as what it *says*:
+`cliGiven` / `cliMentions` / `cliSource` (`Model/Options.lean`) read every `-key value`, `-key=value` and
+bare boolean `-key` of the whole token list; nothing ends that reading.  Since the repair `flagSet` refuses
+a command line on which `flag.Parse` leaves a positional argument (`Stage.refuseStray`, regenerated as the
+last statement of `flagSet`: `gen_stages`), and on every other command line the two readings agree. -/
+
+/-- the process does not reach the end of `flagSet`: it ends with a status (`log.Fatal`, a flag error, a
+positional argument) or panics -/
+def Refused (o : Outcome Settings) : Prop := ∀ s, o ≠ .ok s
+
+/-- when option loading completes, package `flag` has read the command line as it is written:
+`flagSource` (the parser's reading) is `cliSource` (every `-key value` of the whole token list) -/
+theorem flagSource_eq_cliSource (tbl : List Row) (inp : Inputs) (s : Settings) (hc : RegistersCurrent tbl)
+    (h : run tbl canonicalStages inp = .ok s) : flagSource tbl inp.args = cliSource tbl inp.args := by
+  obtain ⟨_, _, l, _, hp, hst, _⟩ := run_canonical tbl inp s hc h
+  rw [cliSource_eq_lastOf tbl inp.args l hp hst]
+  simp [flagSource, hp]
+
+/-- **C17 (precedence, the command line as it is written)**: for every option table whose flags are
+registered with the current value, every environment, every file content and every command line: if option
+loading reaches the end of `flagSet`, every setting has the value the command line *says* (`cliSource`:
+the last `-key value` / `-key=value` / bare boolean `-key` naming its key anywhere on the command line — not
+"what the parser got to"), otherwise the file's, otherwise the environment's, otherwise the built-in
+default.  Same statement as `precedence` with the parser-defined source replaced by the written one; false
+for `flagSet` before the repair of F31 (`f31_counterexample`). -/
+theorem precedence_cli (tbl : List Row) (inp : Inputs) (s : Settings) (hc : RegistersCurrent tbl)
+    (h : run tbl canonicalStages inp = .ok s) :
+    ∃ file, cfgSource tbl inp = some file ∧
+      ∀ f, s f = resolve (defaults tbl) (envSource tbl inp.env) file (cliSource tbl inp.args) f := by
+  obtain ⟨file, hcfg, hs⟩ := precedence tbl inp s hc h
+  refine ⟨file, hcfg, fun f => ?_⟩
+  rw [hs f, flagSource_eq_cliSource tbl inp s hc h]
+
+/-- **C17 (given or refused)**: for every option table (flags registered with the current value, field
+names pairwise distinct), every environment, every file content and every argument list: either the
+process refuses to start, or every key the command line mentions — `-k v` / `--k v` with `v` not spelt like
+a flag, `-k=v`, a bare boolean `-k` (= `true`), a non-boolean `-k` with whatever word follows; the last
+mention when there are several — is a registered key, the mentioned text is a value of its kind, and its
+setting has exactly that value.  No word of the command line is silently dropped. -/
+theorem cli_given_or_refused (tbl : List Row) (inp : Inputs) (hc : RegistersCurrent tbl)
+    (hd : (tbl.map (·.field)).Nodup) :
+    Refused (run tbl canonicalStages inp) ∨
+    ∃ s, run tbl canonicalStages inp = .ok s ∧
+      ∀ k v, cliMentions tbl inp.args k = some v →
+        ∃ reg val, flagOf tbl k = some reg ∧ flagValue reg.kind v = some val ∧
+          ∀ f, reg.target = some f → s f = val := by
+  cases hrun : run tbl canonicalStages inp with
+  | exit c => left; intro s hs; cases hs
+  | panic => left; intro s hs; cases hs
+  | ok s =>
+    right
+    refine ⟨s, rfl, fun k v hm => ?_⟩
+    obtain ⟨_, file, l, _, hp, hst, hs⟩ := run_canonical tbl inp s hc hrun
+    have hfull := parse_full (regs := configReg :: regsOf tbl) _ _ _ (Nat.lt_succ_self _) hp hst
+    have hrev : (cliGiven (boolKey tbl) inp.args).reverse.map (assignOf (configReg :: regsOf tbl))
+        = l.reverse.map some := by
+      rw [List.map_reverse, List.map_reverse]
+      exact congrArg List.reverse hfull
+    unfold cliMentions at hm
+    cases hfind : (cliGiven (boolKey tbl) inp.args).reverse.find? (fun p => p.1 = k) with
+    | none => simp [hfind] at hm
+    | some p =>
+      simp only [hfind, Option.map_some, Option.some.injEq] at hm
+      obtain ⟨reg, val, hr, hv, hl⟩ :=
+        mention_assigned (keysToFields_table tbl hd) _ _ hrev k p hfind
+      refine ⟨reg, val, hr, by rw [← hm]; exact hv, fun f hf => ?_⟩
+      have hlast : lastOf l f = some val := hl f hf
+      rw [hs]
+      simp [apply, hlast]
+
+/-- the audit's command line: the documented `-key value` form for a boolean, a flag behind it -/
+def inpF31 : Inputs :=
+  { env := fun _ => "", readFile := fun _ => none, arg0 := "vflow",
+    args := ["-ipfix-enabled", "false", "-sflow-port", "7000"] }
+
+/-- the outcome is a refusal with this exit status -/
+def exitsWith (o : Outcome Settings) (c : Nat) : Bool :=
+  match o with
+  | .exit c' => c' == c
+  | _ => false
+
+/-- **F31**: `vflow -ipfix-enabled false -sflow-port 7000`, real option table.  The command line says
+`ipfix-enabled` = `false` and `sflow-port` = `7000`.  `flagSet` before the repair (`stagesBeforeF31`: nothing
+behind `flag.Parse()`) reached its end — the process started — with `IPFIXEnabled = true` and `SFlowPort` at
+its built-in 6343: `false` was the first positional argument and ended the parsing, what `flag.Parse` left is
+`["false", "-sflow-port", "7000"]`.  So `precedence_cli` and `cli_given_or_refused` are false of the old
+stage list, while `precedence` (parser-defined source) held of it: the parser's `flagSource` gives
+`sflow-port` nothing.  The repaired `flagSet` refuses the command line (`exit 2`). -/
+theorem f31_counterexample :
+    cliMentions Gen.OptionsTbl.rows inpF31.args "ipfix-enabled" = some "false" ∧
+    cliMentions Gen.OptionsTbl.rows inpF31.args "sflow-port" = some "7000" ∧
+    cliSource Gen.OptionsTbl.rows inpF31.args "SFlowPort" = some (.int 7000) ∧
+    flagSource Gen.OptionsTbl.rows inpF31.args "SFlowPort" = none ∧
+    valueOf (run Gen.OptionsTbl.rows stagesBeforeF31 inpF31) "SFlowPort" = some (.int 6343) ∧
+    valueOf (run Gen.OptionsTbl.rows stagesBeforeF31 inpF31) "IPFIXEnabled" = some (.bool true) ∧
+    strayArgs (configReg :: regsOf Gen.OptionsTbl.rows) 5 inpF31.args = ["false", "-sflow-port", "7000"] ∧
+    exitsWith (run Gen.OptionsTbl.rows canonicalStages inpF31) 2 = true := by decide
+
+/-- the reading of the command line ends nowhere: a stray word, `--`, a boolean in both forms, a negative number -/
+example : cliGiven (boolKey Gen.OptionsTbl.rows)
+      ["stray", "-sflow-port", "-5", "--", "-verbose", "--ipfix-enabled", "0", "-mqueue=nsq", "-", "-netflow9-enabled"]
+    = [("sflow-port", "-5"), ("verbose", "true"), ("ipfix-enabled", "0"), ("mqueue", "nsq"), ("netflow9-enabled", "true")] := by
+  decide
+
+/-- non-vacuity of `cli_given_or_refused` / `precedence_cli` (second alternative): `-key=value` for the
+boolean, a bare boolean in front of a flag, `--` as the last word — the process starts, and the mentioned
+keys have the mentioned values -/
+example :
+    let args := ["-ipfix-enabled=false", "-verbose", "-sflow-port", "7000", "--"]
+    let o := run Gen.OptionsTbl.rows canonicalStages { inpF31 with args := args }
+    (cliMentions Gen.OptionsTbl.rows args "ipfix-enabled", cliMentions Gen.OptionsTbl.rows args "verbose",
+      cliMentions Gen.OptionsTbl.rows args "sflow-port") = (some "false", some "true", some "7000") ∧
+    (valueOf o "IPFIXEnabled", valueOf o "Verbose", valueOf o "SFlowPort")
+      = (some (.bool false), some (.bool true), some (.int 7000)) := by decide
+
+/-- … (first alternative) a stray word, words behind `--`, a lone `-`, a boolean followed by a word that is
+no boolean: refused with status 2, wherever the word stands -/
+example : [["stray", "-sflow-port", "7000"], ["-sflow-port", "7000", "stray"], ["--", "-sflow-port", "7000"],
+      ["-", "-sflow-port", "7000"], ["-verbose", "maybe"], ["-verbose", "true", "-ipfix-workers", "20"]].all
+    (fun args => exitsWith (run Gen.OptionsTbl.rows canonicalStages { inpF31 with args := args }) 2) = true := by
+  decide
+
 /-! ## the generated facts (re-checked against the source on every run) -/
 
-/-- the statement order of `flagSet`, as extracted, is the canonical one -/
+/-- the statement order of `flagSet`, as extracted, is the canonical one — its last statement, behind
+`flag.Parse()`, is `if flag.NArg() > 0 { fmt.Fprintf(os.Stderr, …); os.Exit(2) }` (F31: without it, or with it
+anywhere else, this obligation fails) -/
 theorem gen_stages : Gen.OptionsTbl.stages = canonicalStages := by decide
 
 /-- every flag is registered with `opts.F` itself as the default -/
@@ -374,6 +513,19 @@ theorem gen_rows_distinct :
     ((Gen.OptionsTbl.rows.map (·.yaml)).filter (· ≠ "")).Nodup ∧
     ((Gen.OptionsTbl.rows.map (·.flag)).filter (· ≠ "")).Nodup := by decide
 
+/-- every flag name is a word package `flag` can read as a flag: not empty, no leading `-` or `=`, no `=` inside -/
+theorem gen_key_shape : Gen.OptionsTbl.rows.all (fun r => r.flag == "" || keyShape r.flag) = true := by decide
+
+/-- **how the keys of the real table are spelt on the command line** (what `cliGiven` takes for a mention of
+the key): `-name`, `--name`, `-name=v`, `--name=v`, for every flag of the table and every text `v` -/
+theorem gen_key_spellings (r : Row) (hr : r ∈ Gen.OptionsTbl.rows) (hf : r.flag ≠ "") :
+    wordOf ("-" ++ r.flag) = .flag r.flag none ∧ wordOf ("--" ++ r.flag) = .flag r.flag none ∧
+    ∀ v : String, wordOf ("-" ++ r.flag ++ "=" ++ v) = .flag r.flag (some v) ∧
+      wordOf ("--" ++ r.flag ++ "=" ++ v) = .flag r.flag (some v) := by
+  have h := List.all_eq_true.mp gen_key_shape r hr
+  simp only [Bool.or_eq_true, beq_iff_eq, hf, false_or] at h
+  exact wordOf_key h
+
 /-- the only field of another type carrying a yaml key is the list-valued `sflow-type-filter` (out of scope) -/
 theorem gen_other_fields : Gen.OptionsTbl.otherFields =
     ["Logger *log.Logger ", "SFlowTypeFilter arrUInt32Flags sflow-type-filter"] := by decide
@@ -398,6 +550,27 @@ theorem precedence_generated (inp : Inputs) (s : Settings)
         (flagSource Gen.OptionsTbl.rows inp.args) f := by
   rw [gen_stages] at h
   exact precedence _ inp s gen_registers_current h
+
+/-- **C17 for the code as it is, the command line as it is written**: `precedence_cli` instantiated with the
+regenerated table and stage order (whose last statement is the refusal of a positional argument) -/
+theorem precedence_generated_cli (inp : Inputs) (s : Settings)
+    (h : run Gen.OptionsTbl.rows Gen.OptionsTbl.stages inp = .ok s) :
+    ∃ file, cfgSource Gen.OptionsTbl.rows inp = some file ∧
+      ∀ f, s f = resolve (defaults Gen.OptionsTbl.rows) (envSource Gen.OptionsTbl.rows inp.env) file
+        (cliSource Gen.OptionsTbl.rows inp.args) f := by
+  rw [gen_stages] at h
+  exact precedence_cli _ inp s gen_registers_current h
+
+/-- **C17 for the code as it is, given or refused**: `cli_given_or_refused` instantiated with the regenerated
+table and stage order -/
+theorem cli_given_or_refused_generated (inp : Inputs) :
+    Refused (run Gen.OptionsTbl.rows Gen.OptionsTbl.stages inp) ∨
+    ∃ s, run Gen.OptionsTbl.rows Gen.OptionsTbl.stages inp = .ok s ∧
+      ∀ k v, cliMentions Gen.OptionsTbl.rows inp.args k = some v →
+        ∃ reg val, flagOf Gen.OptionsTbl.rows k = some reg ∧ flagValue reg.kind v = some val ∧
+          ∀ f, reg.target = some f → s f = val := by
+  rw [gen_stages]
+  exact cli_given_or_refused _ inp gen_registers_current gen_rows_distinct.1
 
 /-- **C17 for the code as it is, every spelling of the config flag**: `precedence_spelling` instantiated
 with the regenerated table and stage order -/
